@@ -270,14 +270,22 @@ def lp_oracle(lp, out, exact=None):
     return fails
 
 
-def coq_lp(lp, out):
+def coq_lp(lp, out, fl=False):
+    """fl=False: exact rationals (Q instance); fl=True: hex float literals (binary64 instance)"""
     x, lambd, fun, su, st, ni = out
     mi = natlit(lp["max_iter"]) if lp["max_iter"] < 5000 else "(Z.to_nat %d)" % lp["max_iter"]
-    if not su and st == 2 or any(v != v or abs(v) == math.inf for v in x + lambd + [fun]):
-        x, lambd, fun = [], [], 0.0     # uninitialised outputs after a failed Phase 1: not compared
-    return tup(qlist(lp["c"]), natlit(len(lp["A_ub"])), natlit(len(lp["A_eq"])), qlist2(lp["A_ub"]), qlist(lp["b_ub"]),
-               qlist2(lp["A_eq"]), qlist(lp["b_eq"]), mi,
-               tup(qlist([frac(v) for v in x]), qlist([frac(v) for v in lambd]), qlit(frac(fun)), blit(su), natlit(st), natlit(ni)))
+    if fun == -math.inf or any(v != v or abs(v) == math.inf for v in x + lambd + [fun]):
+        x, lambd, fun = [], [], 0.0     # Phase 1 failed: x, lambd are uninitialised memory, fun = -inf: not compared
+    if fl:
+        L1, L2, lit = flist, flist2, (lambda v: flit(v) + "%float")
+        conv = float
+    else:
+        L1, L2, lit = qlist, qlist2, qlit
+        conv = frac
+    return tup(L1([conv(v) for v in lp["c"]]), natlit(len(lp["A_ub"])), natlit(len(lp["A_eq"])),
+               L2([[conv(v) for v in r] for r in lp["A_ub"]]), L1([conv(v) for v in lp["b_ub"]]),
+               L2([[conv(v) for v in r] for r in lp["A_eq"]]), L1([conv(v) for v in lp["b_eq"]]), mi,
+               tup(L1([conv(v) for v in x]), L1([conv(v) for v in lambd]), lit(conv(fun)), blit(su), natlit(st), natlit(ni)))
 
 
 # ---------------------------------------------------------------- minmax
@@ -304,8 +312,11 @@ def minmax_oracle(A, out, tol):
     return fails
 
 
-def coq_mm(A, mi, out):
+def coq_mm(A, mi, out, fl=False):
     v, x, y = out
+    if fl:
+        return tup(natlit(len(A)), natlit(len(A[0])), flist2([[float(a) for a in r] for r in A]), natlit(mi),
+                   tup(flit(v) + "%float", flist(x), flist(y)))
     return tup(natlit(len(A)), natlit(len(A[0])), qlist2(A), natlit(mi),
                tup(qlit(frac(v)), qlist([frac(t) for t in x]), qlist([frac(t) for t in y])))
 
@@ -344,7 +355,7 @@ def run(ctx):
     thorough = ctx.tier == "thorough"
     ctx.proofs()
     lps = fixed_lps() + [gen_lp(ctx.rng) for _ in range(2400 if thorough else 520)]
-    cases, outs = [], []
+    cases, fcases, outs = [], [], []
     for idx, lp in enumerate(lps):
         out = run_lp(lp, pass_empty_shapes=(idx % 2 == 0))
         outs.append(out)
@@ -365,24 +376,49 @@ def run(ctx):
         for kind, what in lp_oracle(lp, out):
             ctx.fail(kind, what, lp_input(lp), {"x": x, "lambd": lambd, "fun": fun, "success": su, "status": st, "num_iter": ni}, None)
         cases.append(coq_lp(lp, out))
-    bad = ctx.coq_check("linprog_simplex", IMPORTS, LP_TYPE, "lp_ok opts", cases, chunk=40, preamble=PREAMBLE)
-    for i in bad:
+        fcases.append(coq_lp(lp, out, fl=True))
+
+    def lp_model(i, inst):
         lp = lps[i]
         mi = natlit(lp["max_iter"]) if lp["max_iter"] < 5000 else "(Z.to_nat %d)" % lp["max_iter"]
-        model = ctx.coq_eval(IMPORTS, "linprog_simplex %s %s %s %s %s %s %s %s opts" % (
-            qlist(lp["c"]), natlit(len(lp["A_ub"])), natlit(len(lp["A_eq"])), qlist2(lp["A_ub"]), qlist(lp["b_ub"]),
-            qlist2(lp["A_eq"]), qlist(lp["b_eq"]), mi), preamble=PREAMBLE)
-        ctx.mismatch("C04.Model.linprog_simplex vs optimize.linprog_simplex (status, success, num_iter exact; x, lambd, fun within 1e-9)",
-                     lp_input(lp), dict(zip(("x", "lambd", "fun", "success", "status", "num_iter"), outs[i])), model[:1500])
-    bad0 = ctx.coq_check("linprog_simplex_tol0", IMPORTS, LP_TYPE, "lp_ok opts0", cases, chunk=40, preamble=PREAMBLE)
-    ctx.count("lp_tol0_run_differs_from_source_tolerances", len(bad0))
+        args = fcases[i] if inst == "optsF" else cases[i]
+        # re-evaluate the model on the inputs (drop the expected outputs: last component of the tuple)
+        return ctx.coq_eval(IMPORTS, "let '(cv, m, k, Aub, bub, Aeq, beq, mi, _) := %s in linprog_simplex cv m k Aub bub Aeq beq mi %s"
+                            % (args, inst), preamble=PREAMBLE)[:1500]
+
+    # (1) bit-exact: binary64 instance of the model against the jitted implementation
+    badF = ctx.coq_check("linprog_simplex_float_bitexact", IMPORTS, "LPF", "lp_okF", fcases, chunk=60, preamble=PREAMBLE)
+    for i in badF:
+        ctx.mismatch("C04.Model.linprog_simplex (binary64 instance) vs optimize.linprog_simplex: status, num_iter, x, lambd, fun bit-exact",
+                     lp_input(lps[i]), dict(zip(("x", "lambd", "fun", "success", "status", "num_iter"), outs[i])), lp_model(i, "optsF"))
+    # (2) exact arithmetic (the instance the theorems are about), source tolerances: same path -> everything within 1e-9;
+    #     a different path (a tie of the largest-coefficient rule decided by rounding) must still give the same status and optimum
+    bad = ctx.coq_check("linprog_simplex_exactQ", IMPORTS, "LPQ", "lp_ok opts", cases, chunk=40, preamble=PREAMBLE)
+    free = [i for i in bad if lps[i]["max_iter"] >= 1000]
+    ctx.count("lp_exactQ_path_differs_from_float_path", len(bad))
+    ctx.count("lp_exactQ_same_path", len(cases) - len(bad))
+    badw = ctx.coq_check("linprog_simplex_exactQ_status_optimum", IMPORTS, "LPQ", "lp_ok_weak opts", [cases[i] for i in free],
+                         chunk=40, preamble=PREAMBLE)
+    for j in badw:
+        i = free[j]
+        ctx.mismatch("C04.Model.linprog_simplex (exact Q instance) vs optimize.linprog_simplex: status and optimal value",
+                     lp_input(lps[i]), dict(zip(("x", "lambd", "fun", "success", "status", "num_iter"), outs[i])), lp_model(i, "opts"))
+    # (3) the theorems are stated for tolerance 0: measure how often that run coincides with the source-tolerance run
+    bad0 = ctx.coq_check("linprog_simplex_tol0", IMPORTS, "LPQ", "lp_ok opts0", cases, chunk=40, preamble=PREAMBLE)
+    only0 = [i for i in bad0 if i not in set(bad)]
+    ctx.count("lp_tol0_run_differs_from_source_tolerance_run", len(only0))
     ctx.count("lp_tol0_run_equal", len(cases) - len(bad0))
-    for j in bad0[:3]:
-        ctx.notes.append("tolerance-0 run differs on %s" % json.dumps(jsonable(lp_input(lps[j]))))
+    free0 = [i for i in bad0 if lps[i]["max_iter"] >= 1000]
+    badw0 = ctx.coq_check("linprog_simplex_tol0_status_optimum", IMPORTS, "LPQ", "lp_ok_weak opts0", [cases[i] for i in free0],
+                          chunk=40, preamble=PREAMBLE)
+    for j in badw0:
+        i = free0[j]
+        ctx.mismatch("C04.Model.linprog_simplex (exact Q instance, tolerances 0) vs optimize.linprog_simplex: status and optimal value",
+                     lp_input(lps[i]), dict(zip(("x", "lambd", "fun", "success", "status", "num_iter"), outs[i])), lp_model(i, "opts0"))
 
     # ---- minmax
     games = gen_games(ctx.rng, thorough)
-    cases, meta = [], []
+    cases, fcases, meta = [], [], []
     fea_tol = Fraction(1, 10**6)
     for A, tag in games:
         mi = 1000
@@ -395,12 +431,22 @@ def run(ctx):
         for kind, what in minmax_oracle(A, out, TOL if not tag.startswith("real") else fea_tol):
             ctx.fail(kind, what, {"A": A, "tag": tag}, {"v": out[0], "x": out[1], "y": out[2]}, None)
         cases.append(coq_mm(A, mi, out))
+        fcases.append(coq_mm(A, mi, out, fl=True))
         meta.append((A, tag, out))
-    bad = ctx.coq_check("minmax", IMPORTS, MM_TYPE, "mm_ok opts", cases, chunk=40, preamble=PREAMBLE)
-    for i in bad:
+    badF = ctx.coq_check("minmax_float_bitexact", IMPORTS, "MMF", "mm_okF", fcases, chunk=60, preamble=PREAMBLE)
+    for i in badF:
         A, tag, out = meta[i]
+        model = ctx.coq_eval(IMPORTS, "let '(m, n, A, mi, _) := %s in minmax m n A mi optsF" % fcases[i], preamble=PREAMBLE)
+        ctx.mismatch("C04.Model.minmax (binary64 instance) vs optimize.minmax: v, x, y bit-exact", {"A": A, "tag": tag},
+                     dict(zip(("v", "x", "y"), out)), model[:1500])
+    bad = ctx.coq_check("minmax_exactQ", IMPORTS, "MMQ", "mm_ok opts", cases, chunk=40, preamble=PREAMBLE)
+    ctx.count("minmax_exactQ_path_differs_from_float_path", len(bad))
+    ctx.count("minmax_exactQ_same_strategies", len(cases) - len(bad))
+    badw = ctx.coq_check("minmax_exactQ_value", IMPORTS, "MMQ", "mm_ok_weak opts", [cases[i] for i in bad], chunk=40, preamble=PREAMBLE)
+    for j in badw:
+        A, tag, out = meta[bad[j]]
         model = ctx.coq_eval(IMPORTS, "minmax %s %s %s 1000 opts" % (natlit(len(A)), natlit(len(A[0])), qlist2(A)), preamble=PREAMBLE)
-        ctx.mismatch("C04.Model.minmax vs optimize.minmax (v, x, y within 1e-9)", {"A": A, "tag": tag},
+        ctx.mismatch("C04.Model.minmax (exact Q instance) vs optimize.minmax: value v", {"A": A, "tag": tag},
                      dict(zip(("v", "x", "y"), out)), model[:1500])
 
 
